@@ -210,25 +210,11 @@ Definition k_booldefault (m : emodel) (rows : db) (q : query) : bool :=
                      | Some (VBool _) => lacks rows (sf_field sf)
                      | _ => false
                      end) (q_sel q).
-(* 4: skip without first: OFFSET without LIMIT is not SQL *)
-Definition k_skip_alone (q : query) : bool :=
-  match q_first q, q_skip q with
-  | OLit (VInt 0), Some (OLit (VInt z)) => negb (Z.eqb z 0)
-  | OLit (VInt 0), Some (OVar _) => true
-  | _, _ => false
-  end.
-(* 5: a variable whose name is the text of a string literal (or string default) that was given a
-      parameter slot earlier is bound to that literal *)
+(* (classes 4, 5 and 8 were repaired in /repo: 43340e7, e64e320, 936f709) *)
 Definition query_vars (q : query) : list str :=
   flat_map (fun o => match o with OVar n => [n] | _ => [] end)
            (map fl_val (q_filters q) ++ paging_values (q_paging q) ++ [q_first q] ++
             match q_skip q with Some o => [o] | None => [] end).
-Definition k_collision (m : emodel) (q : query) : bool :=
-  let vo := fst (compile m q) in
-  existsb (fun n => match find (fun p : pentry => str_eqb n (snd p)) vo with
-                    | Some p => fst p
-                    | None => false
-                    end) (query_vars q).
 (* 6: a variable whose value is null in an = / != filter is not a null test, unlike the literal null *)
 Definition k_nullvar (q : query) (ps : params) : bool :=
   existsb (fun f => match fl_op f, fl_val f with
@@ -241,30 +227,20 @@ Definition k_firstzero (q : query) (ps : params) : bool :=
   | OVar n => match lookup n ps with Some (VInt 0) => true | _ => false end
   | _ => false
   end.
-(* 8: a filter on a String field whose default contains a quote: the default is written into the statement *)
-Definition k_spliced (m : emodel) (q : query) : bool :=
-  existsb (fun f => match ref_field q (fl_ref f) with
-                    | Some i => match default_of m i with Some (VStr s) => has_quote s | _ => false end
-                    | None => false
-                    end) (q_filters q).
-
 Definition cls (b : bool) (k : Z) : list Z := if b then [k] else [].
 Definition known_query (m : emodel) (rows : db) (q : query) (ps : params) : list Z :=
   cls (match q_paging q with
        | PNone => false
        | p => k_paging (List.length (paging_values p)) m rows q ps
        end) 1 ++
-  cls (k_rawkey m rows q) 2 ++ cls (k_booldefault m rows q) 3 ++ cls (k_skip_alone q) 4 ++
-  cls (k_collision m q) 5 ++ cls (k_nullvar q ps) 6 ++ cls (k_firstzero q ps) 7 ++ cls (k_spliced m q) 8.
+  cls (k_rawkey m rows q) 2 ++ cls (k_booldefault m rows q) 3 ++ cls (k_nullvar q ps) 6 ++ cls (k_firstzero q ps) 7.
 
 Definition known_C05 (c : c05case) : list Z :=
   match c with
   | CQuery m rows q ps => known_query m rows q ps
   | CPages m rows q ps n fuel =>
       cls (k_paging (List.length (q_order q)) m rows q ps || k_ties m rows q ps) 1 ++
-      cls (k_rawkey m rows q) 2 ++ cls (k_booldefault m rows q) 3 ++
-      cls (k_collision m (with_page q n None) || k_collision m (with_page q n (Some (map (fun _ => VNull) (q_order q))))) 5 ++
-      cls (k_nullvar q ps) 6 ++ cls (k_spliced m q) 8
+      cls (k_rawkey m rows q) 2 ++ cls (k_booldefault m rows q) 3 ++ cls (k_nullvar q ps) 6
   end.
 
 (* ---- what the real parser and parameter validation guarantee (hypotheses of the theorems) ---- *)
